@@ -107,6 +107,7 @@ type Contract struct {
 	GhostUpd   []GhostUpdate
 	Uses       []string
 	Reveal     []string
+	Hide       []string // ground tables treated as uninterpreted in this unit (facts come from lemmas)
 	// lemma
 	IsLemma bool
 	Params  []SpecParam
@@ -339,6 +340,14 @@ func (cs *ContractSet) parseFile(path string) {
 		case "nosplit":
 		case "use":
 			cur.Uses = append(cur.Uses, rest)
+		case "hide":
+			for _, r := range strings.Split(rest, ",") {
+				r = strings.TrimSpace(r)
+				if !strings.Contains(r, ".") {
+					r = pkg + "." + r
+				}
+				cur.Hide = append(cur.Hide, r)
+			}
 		case "reveal":
 			for _, r := range strings.Split(rest, ",") {
 				cur.Reveal = append(cur.Reveal, strings.TrimSpace(r))
